@@ -126,7 +126,7 @@ class RefParser:
         segs, i = self.segments(1)
         if i != self.n:
             self.fail(i, "trailing characters")
-        ast = ("$", segs)
+        ast = strip_parens(("$", segs))
         if self.invalid is not None:
             raise RefInvalid(self.invalid)
         return ast
@@ -397,7 +397,7 @@ class RefParser:
             j = self.skip_s(i + 1)
             if self.at(j) == "(":
                 e, k = self.paren(j)
-                return ("not", e), k
+                return ("not", e[1]), k
             operand, k = self.operand(j)
             if _is_lit(operand):
                 self.fail(j, "literal cannot be negated")
@@ -425,7 +425,10 @@ class RefParser:
             if allow_lit:
                 return left, j
             self.fail(i, "literal must be compared")
-        self.check_test(left)
+        if not allow_lit:
+            # (at the top of a function argument a bare call/query is a function-expr / filter-query argument,
+            #  typed against the parameter by check_call, not a test-expr)
+            self.check_test(left)
         return left, j
 
     def paren(self, i: int):
@@ -434,7 +437,9 @@ class RefParser:
         j = self.skip_s(j)
         if self.at(j) != ")":
             self.fail(j, "expected )")
-        return e, j + 1
+        # the node records the parentheses only because a parenthesized query/call is a logical expression
+        # (LogicalType), not a filter-query / function-expr argument; normal forms drop it
+        return ("paren", e), j + 1
 
     def comparison_op(self, i: int):
         c, d = self.at(i), self.at(i + 1)
@@ -616,6 +621,24 @@ def _is_query(n) -> bool:
 
 def _is_func(n) -> bool:
     return isinstance(n, tuple) and len(n) == 3 and n[0] == "func"
+
+
+def strip_parens(n):
+    """The AST without ("paren", e) nodes (and/or chains re-flattened)."""
+    if isinstance(n, tuple):
+        if len(n) == 2 and n[0] == "paren":
+            return strip_parens(n[1])
+        if len(n) == 2 and (n[0] == "or" or n[0] == "and"):
+            flat = []
+            for it in n[1]:
+                it = strip_parens(it)
+                if isinstance(it, tuple) and len(it) == 2 and it[0] == n[0]:
+                    flat.extend(it[1])
+                else:
+                    flat.append(it)
+            return (n[0], tuple(flat))
+        return tuple(strip_parens(x) for x in n)
+    return n
 
 
 def is_singular(query) -> bool:
